@@ -1,4 +1,113 @@
 import Cjet.Basic
+import Cjet.Startup
+/-!
+Driver for component `startup` (start-up / shut-down paths of linux_io.c; properties C07 / C15).
+Script on stdin, one run of `run_io` per line — the same script `harness/comp/startup.c` reads:
+
+    run <local 0|1> <user 0|1> <foreground 0|1> <answer>…
+
+answer (one per call whose result the C code inspects, in call order; missing answers are `ok`):
+    ok | fail | retry | conn | a:<digits>      digits: one `4` or `6` per addrinfo entry (`a:` = no entry)
+
+Output: one line per call (see `evLine`), then the tables at return
+    OPEN <fds|->   REG <fds|->   PEERS <fds|->   HANDLERS term=… int=… pipe=…   AI <n>   RET <r> goahead=<0|1>
+closed by `END`.
+-/
 namespace Cjet.Drv.Startup
-def run (_args : List String) : IO UInt32 := pure 0
+
+open Cjet Cjet.Startup
+
+def parseAns (tok : String) : Option Ans :=
+  if tok == "ok" then some .ok
+  else if tok == "fail" then some .fail
+  else if tok == "retry" then some .retry
+  else if tok == "conn" then some .conn
+  else match tok.toList with
+    | 'a' :: ':' :: ds =>
+      if ds.all (fun c => c == '4' || c == '6') then some (.addrs (ds.map (· == '6'))) else none
+    | _ => none
+
+def okName (b : Bool) : String := if b then "ok" else "fail"
+def sigName : Sig → String | .term => "term" | .int => "int" | .pipe => "pipe"
+def dispName : Disp → String | .handler => "handler" | .ign => "ign" | .dfl => "dfl"
+def famName : Fam → String | .inet6 => "inet6" | .inet => "inet" | .unix => "unix"
+def kindName : Kind → String | .jet => "jet" | .http => "http"
+def portName : Port → String | .jet => "jet" | .ws => "ws"
+def nodeName : Node → String | .lo6 => "lo6" | .lo4 => "lo4"
+def optName : Opt → String | .reuse => "reuse" | .v6only => "v6only"
+def fcName : Fc → String | .getfl => "getfl" | .setfl => "setfl"
+def targetName : Target → String
+  | .any p => "any:" ++ portName p
+  | .lo6 p => "lo6:" ++ portName p
+  | .lo4 p => "lo4:" ++ portName p
+  | .udsAbstract => "uds-abstract"
+
+def evLine : Ev → String
+  | .signal s d ok => s!"SIG {sigName s} {dispName d} {okName ok}"
+  | .init ok => s!"INIT {okName ok}"
+  | .destroy => "DESTROY"
+  | .gai n p (some e) => s!"GAI {nodeName n} {portName p} {e}"
+  | .gai n p none => s!"GAI {nodeName n} {portName p} fail"
+  | .freeai => "FREEAI"
+  | .socket f (some fd) => s!"SOCKET {famName f} {fd}"
+  | .socket f none => s!"SOCKET {famName f} fail"
+  | .sockopt fd o ok => s!"SOCKOPT {fd} {optName o} {okName ok}"
+  | .fcntl fd c ok => s!"FCNTL {fd} {fcName c} {okName ok}"
+  | .bind fd t ok => s!"BIND {fd} {targetName t} {okName ok}"
+  | .listen fd ok => s!"LISTEN {fd} {okName ok}"
+  | .add fd k ok => s!"ADD {fd} {kindName k} {okName ok}"
+  | .remove fd => s!"REMOVE {fd}"
+  | .accept fd .again => s!"ACCEPT {fd} again"
+  | .accept fd .retry => s!"ACCEPT {fd} retry"
+  | .accept fd .fatal => s!"ACCEPT {fd} fatal"
+  | .accept fd (.conn p) => s!"ACCEPT {fd} conn {p}"
+  | .peer p k => s!"PEER {p} {kindName k}"
+  | .close fd => s!"CLOSE {fd}"
+  | .unlinkUds => "UNLINK uds"
+  | .getpwnam ok => s!"GETPWNAM {okName ok}"
+  | .setgid ok => s!"SETGID {okName ok}"
+  | .setuid ok => s!"SETUID {okName ok}"
+  | .daemon ok => s!"DAEMON {okName ok}"
+  | .run ok => if ok then "RUN 0" else "RUN -1"
+  | .destroyPeers => "DESTROYPEERS"
+  | .destroyConns => "DESTROYCONNS"
+
+/-- ascending insertion sort (tables are printed sorted) -/
+def insertSorted (x : Nat) : List Nat → List Nat
+  | [] => [x]
+  | y :: ys => if x ≤ y then x :: y :: ys else y :: insertSorted x ys
+
+def sortNat (l : List Nat) : List Nat := l.foldr insertSorted []
+
+def fdList (l : List Nat) : String :=
+  if l.isEmpty then "-" else " ".intercalate ((sortNat l).map toString)
+
+def parseBool (s : String) : Option Bool :=
+  if s == "0" then some false else if s == "1" then some true else none
+
+def runLine (toks : List String) : List String :=
+  match toks with
+  | l :: u :: f :: rest =>
+    match parseBool l, parseBool u, parseBool f, rest.mapM parseAns with
+    | some l, some u, some f, some script =>
+      let r := Startup.run ⟨l, u, f⟩ script
+      let L := r.2.led
+      r.2.tr.map evLine ++
+        [ "OPEN " ++ fdList L.opn, "REG " ++ fdList (L.reg.map (·.1)), "PEERS " ++ fdList (L.peers.map (·.1)),
+          s!"HANDLERS term={dispName L.term} int={dispName L.int} pipe={dispName L.pipe}",
+          s!"AI {L.ai}",
+          s!"RET {r.1.ret} goahead={if r.2.goAhead then 1 else 0}", "END" ]
+    | _, _, _, _ => ["ERROR bad run", "END"]
+  | _ => ["ERROR bad run", "END"]
+
+def stepLine (_ : Unit) (line : String) : Unit × List String :=
+  match words line with
+  | [] => ((), [])
+  | "run" :: toks => ((), runLine toks)
+  | w :: _ => if w.startsWith "#" then ((), []) else ((), ["ERROR unknown op", "END"])
+
+def run (_args : List String) : IO UInt32 := do
+  runLines stepLine ()
+  pure 0
+
 end Cjet.Drv.Startup
